@@ -380,7 +380,8 @@ def run(ctx):
                     # a double free, a hang, an abort -- is a different violation)
                     key = {"kind": "singular", "class": "structural_singularity_crash",
                            "how": "timeout" if r.get("timeout") else r.get("site", "?").split("@")[0]}
-                elif bad.startswith("STRUCT") and structural:
+                elif bad.startswith("STRUCT") and (structural or c["kind"] == "zerorow"):
+                    # (an explicitly stored zero ROW is a rank deficiency that shows only through fill, like the structural kinds)
                     key = {"kind": "singular", "class": "structural_rank_deficiency_not_reported"}
                 else:
                     key = {"kind": "singular", "what": bad[:28], "sub": c["kind"]}
